@@ -1,0 +1,172 @@
+//go:build verif
+
+// Machine-checked contracts for package objectz. This file contains comments
+// only; it is read by /verif/bin/govc (build tag `verif`) and is invisible
+// otherwise.
+package objectz
+
+// The value of a symbol on an entity: symTyp = dynamic type of the boxed pointer the
+// symbol function returns, symVal = the pointer itself (0 = null).
+//@ spec symTyp(sym Int, ent Int) Int
+//@ spec symVal(sym Int, ent Int) Int
+
+//@ func (ObjectSymbol).Eval
+//@   trusted the symbol functions are supplied by the user of the store
+//@   pure
+//@   ensures dyn(result) == symTyp(self, entity) && ref(result) == symVal(self, entity)
+//@   ensures symTyp(self, entity) == typeid(*bool) || symTyp(self, entity) == typeid(*string) || symTyp(self, entity) == typeid(*int64) || symTyp(self, entity) == typeid(*float64) || symTyp(self, entity) == typeid(*time.Time)
+
+//@ func (*ObjectCursor).eval
+//@   props C19
+//@   requires self.store != nil && self.store.symbols[name] != nil
+//@   pure
+//@   ensures dyn(result) == symTyp(self.store.symbols[name], self.current) && ref(result) == symVal(self.store.symbols[name], self.current)
+//@   ensures symTyp(self.store.symbols[name], self.current) == typeid(*bool) || symTyp(self.store.symbols[name], self.current) == typeid(*string) || symTyp(self.store.symbols[name], self.current) == typeid(*int64) || symTyp(self.store.symbols[name], self.current) == typeid(*float64) || symTyp(self.store.symbols[name], self.current) == typeid(*time.Time)
+
+// null test: true exactly when the symbol's value is a null pointer
+//@ func (*ObjectCursor).IsNil
+//@   props C19
+//@   requires self.store != nil && self.store.symbols[name] != nil
+//@   pure
+//@   ensures[null-iff] result == (symVal(self.store.symbols[name], self.current) == 0)
+
+//@ func (*ObjectCursor).EvalString
+//@   props C19
+//@   requires self.store != nil && self.store.symbols[name] != nil
+//@   pure
+//@   ensures[typed] result == ite(symTyp(self.store.symbols[name], self.current) == typeid(*string), symVal(self.store.symbols[name], self.current), 0)
+//@ func (*ObjectCursor).EvalBool
+//@   props C19
+//@   requires self.store != nil && self.store.symbols[name] != nil
+//@   pure
+//@   ensures[typed] result == ite(symTyp(self.store.symbols[name], self.current) == typeid(*bool), symVal(self.store.symbols[name], self.current), 0)
+//@ func (*ObjectCursor).EvalInt64
+//@   props C19
+//@   requires self.store != nil && self.store.symbols[name] != nil
+//@   pure
+//@   ensures[typed] result == ite(symTyp(self.store.symbols[name], self.current) == typeid(*int64), symVal(self.store.symbols[name], self.current), 0)
+//@ func (*ObjectCursor).EvalFloat64
+//@   props C19
+//@   requires self.store != nil && self.store.symbols[name] != nil
+//@   pure
+//@   ensures[typed] result == ite(symTyp(self.store.symbols[name], self.current) == typeid(*float64), symVal(self.store.symbols[name], self.current), 0)
+//@ func (*ObjectCursor).EvalDatetime
+//@   props C19
+//@   requires self.store != nil && self.store.symbols[name] != nil
+//@   pure
+//@   ensures[typed] result == ite(symTyp(self.store.symbols[name], self.current) == typeid(*time.Time), symVal(self.store.symbols[name], self.current), 0)
+
+//@ func (*scanner).setPaging
+//@   props C19
+//@   requires query != nil
+//@   modifies s.targetOffset, s.targetLimit, qHasSkip[query], qSkip[query], qHasLimit[query], qLimit[query]
+//@   ensures[offset] s.targetOffset == ite(old(qHasSkip[query]), max(old(qSkip[query]), 0), 0)
+//@   ensures[limit] s.targetLimit == ite(old(qHasLimit[query]) && old(qLimit[query]) >= 0, old(qLimit[query]), MaxInt64)
+
+// ---------------------------------------------------------------------------
+// Typed symbol evaluation and sort comparators (C19): same ordering rules as the bolt store
+// (null first when ascending, descending negates).
+// ---------------------------------------------------------------------------
+
+//@ spec cmp3(n1 Bool, n2 Bool, lt Bool, gt Bool) Int = (ite n1 (ite n2 0 (- 1)) (ite n2 1 (ite lt (- 1) (ite gt 1 0))))
+//@ spec oStr(sym Int, ent Int) *string
+//@ func (*ObjectStringSymbol).EvalString
+//@   trusted the symbol function f is supplied by the user of the store
+//@   pure
+//@   ensures result == oStr(self, entity)
+//@ spec oInt(sym Int, ent Int) *int64
+//@ func (*ObjectInt64Symbol).EvalInt64
+//@   trusted the symbol function f is supplied by the user of the store
+//@   pure
+//@   ensures result == oInt(self, entity)
+//@ spec oFlt(sym Int, ent Int) *float64
+//@ func (*ObjectFloat64Symbol).EvalFloat64
+//@   trusted the symbol function f is supplied by the user of the store
+//@   pure
+//@   ensures result == oFlt(self, entity)
+//@ spec oBool(sym Int, ent Int) *bool
+//@ func (*ObjectBoolSymbol).EvalBool
+//@   trusted the symbol function f is supplied by the user of the store
+//@   pure
+//@   ensures result == oBool(self, entity)
+//@ spec oTime(sym Int, ent Int) *time.Time
+//@ func (*ObjectDatetimeSymbol).EvalDatetime
+//@   trusted the symbol function f is supplied by the user of the store
+//@   pure
+//@   ensures result == oTime(self, entity)
+//@ func (*objectStringSymbolComparator).compare
+//@   props C19
+//@   requires c.symbol != nil
+//@   pure
+//@   ensures[order] result == ite(c.forward, 1, -1) * cmp3(oStr(c.symbol, a) == nil, oStr(c.symbol, b) == nil, *oStr(c.symbol, a) < *oStr(c.symbol, b), *oStr(c.symbol, a) > *oStr(c.symbol, b))
+//@ func (*objectInt64SymbolComparator).compare
+//@   props C19
+//@   requires c.symbol != nil
+//@   pure
+//@   ensures[order] result == ite(c.forward, 1, -1) * cmp3(oInt(c.symbol, a) == nil, oInt(c.symbol, b) == nil, *oInt(c.symbol, a) < *oInt(c.symbol, b), *oInt(c.symbol, a) > *oInt(c.symbol, b))
+//@ func (*objectFloat64SymbolComparator).compare
+//@   props C19
+//@   requires c.symbol != nil
+//@   pure
+//@   ensures[order] result == ite(c.forward, 1, -1) * cmp3(oFlt(c.symbol, a) == nil, oFlt(c.symbol, b) == nil, *oFlt(c.symbol, a) < *oFlt(c.symbol, b), *oFlt(c.symbol, a) > *oFlt(c.symbol, b))
+//@ func (*objectBoolSymbolComparator).compare
+//@   props C19
+//@   requires c.symbol != nil
+//@   pure
+//@   ensures[order] result == ite(c.forward, 1, -1) * cmp3(oBool(c.symbol, a) == nil, oBool(c.symbol, b) == nil, !*oBool(c.symbol, a) && *oBool(c.symbol, b), *oBool(c.symbol, a) && !*oBool(c.symbol, b))
+//@ func (*objectDatetimeSymbolComparator).compare
+//@   props C19
+//@   requires c.symbol != nil
+//@   pure
+//@   ensures[order] result == ite(c.forward, 1, -1) * cmp3(oTime(c.symbol, a) == nil, oTime(c.symbol, b) == nil, timeInstant(*oTime(c.symbol, a)) < timeInstant(*oTime(c.symbol, b)), timeInstant(*oTime(c.symbol, a)) > timeInstant(*oTime(c.symbol, b)))
+
+// ---------------------------------------------------------------------------
+// Scan (C19): iterator model itPos/itLen; match counting as in the bolt store.
+// ---------------------------------------------------------------------------
+
+//@ ghost itLen : (Array Int Int)
+//@ ghost itPos : (Array Int Int)
+//@ spec itElem(it Int, i Int) Int
+//@ func (ObjectIterator).IsValid
+//@   pure
+//@   ensures result == (itPos[self] < itLen[self]) && 0 <= itPos[self] && itPos[self] <= itLen[self] && itLen[self] < MaxInt64
+//@ func (ObjectIterator).Current
+//@   pure
+//@   ensures itPos[self] < itLen[self] ==> result == itElem(self, itPos[self])
+//@ func (ObjectIterator).Next
+//@   requires itPos[self] < itLen[self]
+//@   modifies itPos[self]
+//@   ensures itPos[self] == old(itPos[self]) + 1
+//@ funcfield ObjectStore.iteratorF
+//@   pure
+//@   ensures result != nil ==> itPos[result] == 0 && 0 <= itLen[result] && itLen[result] < MaxInt64
+
+//@ func (*ObjectStore).newRowComparator
+//@   pure
+
+// The row an ObjectCursor stands on is its field `current`: symRow[c] = entKey(c.current).
+//@ spec entKey(ent Int) Str
+//@ modelfield ObjectCursor.current symRow entKey
+// ocnt(q, it, i): number of entities accepted by q among the first i elements of iterator it
+//@ spec ocnt(q Int, it Int, i Int) Int
+//@ axiom ocnt_def: (forall ((q Int) (it Int) (i Int)) (! (and (= (ocnt q it 0) 0) (=> (>= i 0) (= (ocnt q it (+ i 1)) (+ (ocnt q it i) (ite (nodeSem q (entKey (itElem it i))) 1 0))))) :pattern ((ocnt q it (+ i 1)))))
+
+//@ func (*memSortingScanner).Scan
+//@   props C19
+//@   requires query != nil && store != nil
+//@   requires scanner.offset == 0 && scanner.count == 0
+//@   modifies *
+//@   lensures[count] result2 == nil && cursor != nil ==> result1 == ocnt(query, cursor, itLen[cursor])
+//@   invariant[paging] 1: scanner.targetOffset == ite(old(qHasSkip[query]), max(old(qSkip[query]), 0), 0) && scanner.targetLimit == ite(old(qHasLimit[query]) && old(qLimit[query]) >= 0, old(qLimit[query]), MaxInt64)
+//@   invariant[window] 1: maxResults == min(MaxInt64, scanner.targetOffset + scanner.targetLimit)
+//@   invariant[tree-size] 1: treeLen[results] == min(scanner.count, maxResults)
+//@   invariant[count] 1: 0 <= itPos[cursor] && itPos[cursor] <= itLen[cursor] && itLen[cursor] < MaxInt64 && 0 <= scanner.count && scanner.count <= itPos[cursor] && scanner.count == ocnt(query, cursor, itPos[cursor])
+//@   invariant 1: cursor != nil && rowCursor != nil && results != nil
+
+//@ func (*memSortingScanner).Scan$1
+//@   props C19
+//@   requires *scanner != nil && istype(row, *memEntityComparable) && ref(row) != 0
+//@   modifies (*scanner).offset, *fv(result)
+//@   ensures[skip] old((*scanner).offset) < (*scanner).targetOffset ==> (*scanner).offset == old((*scanner).offset) + 1 && *fv(result) == old(*fv(result))
+//@   ensures[take] old((*scanner).offset) >= (*scanner).targetOffset ==> (*scanner).offset == old((*scanner).offset) && len(*fv(result)) == old(len(*fv(result))) + 1 && (*fv(result))[old(len(*fv(result)))] == as(row, *memEntityComparable).entity
+//@   ensures[all] result == false
